@@ -7,7 +7,7 @@ against real files; the sizes of all files are read from the host after every re
 compared with the Coq model (coq_check_cases); the property predicate (size unchanged,
 size-changing requests refused, in-size requests behave as on an unsealed export run in
 lockstep) is evaluated on the observations."""
-import os, sys, json, random, struct, shutil, time
+import os, sys, json, random, struct, shutil, time, re
 from vlib import *
 from c16 import FuseClient, FuseError, OP, parse_entry_out, FUSE_NO_OPEN_SUPPORT, FUSE_ATOMIC_O_TRUNC
 
@@ -20,6 +20,40 @@ U64 = 2 ** 64 - 1
 
 COQ_HEADER = ('From Coq Require Import List NArith Bool.\nFrom FB Require Import Model.Seal.\n'
               'Import ListNotations.\nLocal Open Scope N_scope.\n')
+
+def fn_body(src, name):
+    """text of `fn <name>(` ... up to the matching closing brace (brace counting on a fixed subset of Rust)"""
+    m = re.search(r'\bfn %s\s*(<[^>]*>)?\s*\(' % re.escape(name), src)
+    if not m: return None
+    i = src.index('{', m.end()); d = 0
+    for j in range(i, len(src)):
+        if src[j] == '{': d += 1
+        elif src[j] == '}':
+            d -= 1
+            if d == 0: return src[i:j + 1]
+    return None
+
+def read_fixes(repo):
+    """which O_TRUNC / O_APPEND refusals under seal_size the tree contains (Model/Seal.v `fixes`); a reading the
+    model-vs-implementation comparison validates on every run.  -> (dict, error or None)"""
+    try:
+        src = strip_rust_comments(open(os.path.join(repo, 'src/passthrough/sync_io.rs')).read())
+    except OSError as ex:
+        return None, str(ex)
+    out = {}
+    for key, fn, flag in (('fx_open', 'do_open', 'O_TRUNC'), ('fx_create', 'create', 'O_TRUNC'), ('fx_append', 'write', 'O_APPEND')):
+        body = fn_body(src, fn)
+        if body is None: return None, 'fn %s not found in src/passthrough/sync_io.rs' % fn
+        # a statement that mentions both seal_size and the flag (`if self.seal_size... && flags & O_X != 0`)
+        out[key] = bool(re.search(r'seal_size[^;{}]*%s|%s[^;{}]*seal_size' % (flag, flag), body)) or \
+                   bool(key == 'fx_append' and re.search(r'O_APPEND[^;{}]*\{\s*return Err\(eperm\(\)\)', body))
+    return out, None
+
+def strip_rust_comments(s):
+    return re.sub(r'//[^\n]*', '', re.sub(r'/\*.*?\*/', '', s, flags=re.S))
+
+def coq_fixes(fx):
+    return '(mk_fixes %s %s %s)' % tuple('true' if fx[k] else 'false' for k in ('fx_open', 'fx_create', 'fx_append'))
 
 class Inst:
     """one file system instance over its own copy of the tree"""
@@ -86,7 +120,7 @@ def coq_req(r):
     if k == 'write': return 'Write %d %d %d %d %d' % (r['slot'], r['file'], r['off'], r['len'], r['wflags'])
     if k == 'fallocate': return 'Fallocate %d %d %d %d %d' % (r['slot'], r['file'], r['mode'], r['off'], r['len'])
     if k == 'setattr': return 'Setattr %d %s %d' % (r['file'], 'true' if r['with_size'] else 'false', r['size'])
-    if k == 'release': return 'Release %d' % r['slot']
+    if k == 'release': return 'Release %d %d' % (r['slot'], r['file'])
 
 def around(rng, size, ln):
     c = [0, size, max(0, size - ln), max(0, size - ln + 1), max(0, size - 1), size + 1, size // 2, rng.randrange(size + 1), size + 4096]
@@ -226,6 +260,10 @@ def run_check(tier, seed):
     if not ok:
         broken.append({'kind': 'harness-build', 'log': out[-3000:]})
         return finish(ev, PROP, findings, broken)
+    fx, fxerr = read_fixes(REPO)
+    if fx is None:
+        broken.append({'kind': 'translator', 'item': 'props/c18.py read_fixes', 'error': fxerr}); fx = {'fx_open': False, 'fx_create': False, 'fx_append': False}
+    ev.cov['code_variant'] = dict(fx, decided_by=('C18_full_when_fixed' if all(fx.values()) else 'C18_refuted + C18_partial'))
     nh = 30 if quick else 400
     evals = 0; nontriv = set(); samples = []; exprs = []; meta = []
     base = os.path.join(SCRATCH, 'c18-tree')
@@ -284,8 +322,8 @@ def run_check(tier, seed):
                                                  % (coq_req(r), e, after, eu, au), 'input': inp, 'sig': dict(sig_of(r), kind='differs-from-unsealed')})
                         nontriv.add((r['op'], cls, e, no_open, r.get('flags', r.get('wflags', r.get('mode', 0)))))
                         cases.append((r, e, after))
-                    exprs.append('(hist_check tie_host (mk_cfg true %s) %d (init_state [%s]) [%s])' % (
-                        'true' if no_open else 'false', len(SIZES0), '; '.join(map(str, SIZES0)),
+                    exprs.append('(hist_check tie_host (mk_cfg true %s %s) %d (init_state [%s]) [%s])' % (
+                        'true' if no_open else 'false', coq_fixes(fx), len(SIZES0), '; '.join(map(str, SIZES0)),
                         ';\n '.join('(%s, %d, [%s])' % (coq_req(r), e, '; '.join(map(str, a))) for r, e, a in cases)))
                     meta.append({'config': {'seal_size': True, 'no_open': bool(no_open), 'kind': kind}, 'requests': [coq_req(r) for r, _, _ in cases], 'errnos': [e for _, e, _ in cases], 'sizes': [a for _, _, a in cases]})
                     if len(samples) < 3: samples.append({'config': {'seal_size': True, 'no_open': bool(no_open)}, 'first_requests': [(coq_req(r), e, a) for r, e, a in cases[:4]]})
@@ -302,8 +340,8 @@ def run_check(tier, seed):
                         e = U.send(r); after = U.sizes(); evals += 1
                         if e in ('panic', 'noreply'): break
                         cases.append((r, e, after))
-                    exprs.append('(hist_check tie_host (mk_cfg false %s) %d (init_state [%s]) [%s])' % (
-                        'true' if no_open else 'false', len(SIZES0), '; '.join(map(str, SIZES0)),
+                    exprs.append('(hist_check tie_host (mk_cfg false %s %s) %d (init_state [%s]) [%s])' % (
+                        'true' if no_open else 'false', coq_fixes(fx), len(SIZES0), '; '.join(map(str, SIZES0)),
                         ';\n '.join('(%s, %d, [%s])' % (coq_req(r), e, '; '.join(map(str, a))) for r, e, a in cases)))
                     meta.append({'config': {'seal_size': False, 'no_open': bool(no_open)}, 'requests': [coq_req(r) for r, _, _ in cases], 'errnos': [e for _, e, _ in cases], 'sizes': [a for _, _, a in cases]})
                 finally:
